@@ -220,6 +220,31 @@ func (p *planner) pairFamilies(fns []string, n int) {
 		}
 		p.pair(fns, gen.Pair{S: s, T: t})
 	}
+	// ill-formed input only: one argument holds a multi-byte code point, the other a proper prefix of its
+	// encoding followed by something that is not the right continuation (ASCII, a bad byte, another lead byte,
+	// U+FFFD, the rest of the code point after one wrong byte), after a common prefix: a bytewise skip of the
+	// "equal" bytes must not leave the two decoders out of step
+	if !g.Valid {
+		p.fam = "truncations"
+		for i := 0; i < n/2; i++ {
+			R := []string{"é", "α", "\u212a", "世", "�", "𐐀", "😀", "ſ", "ẞ"}[g.R.Intn(9)]
+			enc := []byte(R)
+			k := 1 + g.R.Intn(len(enc)-1)
+			after := [][]byte{{}, {'('}, {0xFF}, {0xC3}, {0x80}, []byte("�"), {0xF0}, {'a'}, enc[k:], append([]byte{0xFF}, enc[k:]...)}[g.R.Intn(10)]
+			pre := g.Pad([]int{0, 0, 1, 3, 7, 8, 15, 16, 17, 31}[g.R.Intn(10)], g.R.Intn(2), nil)
+			pre2 := pre
+			if g.R.Intn(3) == 0 {
+				pre2 = g.Recase(pre)
+			}
+			tail := g.Str(g.R.Intn(2))
+			a := append(append(append(append([]byte(nil), pre...), enc[:k]...), after...), tail...)
+			b := append(append(append([]byte(nil), pre2...), enc...), tail...)
+			if g.R.Intn(2) == 0 {
+				a, b = b, a
+			}
+			p.pair(fns, gen.Pair{S: a, T: b})
+		}
+	}
 	p.fam = "small-exhaustive"
 	stride := 40 / g.Scale
 	if stride < 1 {
@@ -228,6 +253,8 @@ func (p *planner) pairFamilies(fns []string, n int) {
 	g.SmallExhaustive(2, 2, stride, func(pr gen.Pair) { p.pair(fns, pr) })
 	// one-byte needles of every ASCII value against their 0x20-neighbours (every two-argument function)
 	p.singleByteCount(fns, n/4)
+	// (haystack, character set) shapes of the *Any functions
+	p.anyFamilies(fns, n)
 }
 
 func (p *planner) runeFamilies(fns []string, n int) {
@@ -386,6 +413,62 @@ func (p *planner) dotlessFamilies(fns []string, n int) {
 	}
 }
 
+// anyFamilies: (s, chars) pairs across the strategies of IndexAny/LastIndexAny: haystack lengths around the
+// `len(s) > 8` gate and the `len(s) > 2*len(chars)` gate, ASCII-only and mixed haystacks, chars mixing K/k/S/s
+// (the ASCII-set escape hatch), other letters in both cases, non-letters and non-ASCII members
+func (p *planner) anyFamilies(fns []string, n int) {
+	g := p.g
+	p.fam = "any-strategies"
+	for i := 0; i < n; i++ {
+		ls := []int{0, 1, 2, 7, 8, 9, 10, 16, 17, 30}[g.R.Intn(10)]
+		var s []byte
+		switch g.R.Intn(3) {
+		case 0:
+			s = g.Pad(ls, 0, nil)
+		case 1:
+			s = g.Pad(ls, 3, nil)
+		default:
+			for len(s) < ls {
+				s = append(s, "aAzZkKsSbB1-xX"[g.R.Intn(14)])
+			}
+		}
+		if g.R.Intn(2) == 0 {
+			s = append(s, []string{"\u212a", "ſ", "k", "S", "世", "é", "1", "A", "z"}[g.R.Intn(9)]...)
+		}
+		var chars []byte
+		for j := g.R.Intn(6); j > 0; j-- {
+			chars = append(chars, []string{"k", "K", "s", "S", "\u212a", "ſ", "a", "A", "1", "é", "世", "z", "Z", "b", "-"}[g.R.Intn(15)]...)
+		}
+		if g.R.Intn(4) == 0 {
+			chars = append(chars, g.Str(1)...)
+		}
+		if g.Valid && (!utf8.Valid(s) || !utf8.Valid(chars)) {
+			continue
+		}
+		p.pair(fns, gen.Pair{S: s, T: chars})
+		// planted design: neutral filler that is in no orbit of `chars`, with zero, one or two planted fold
+		// variants of members of `chars`: every member and every variant gets to be the deciding match
+		if len(chars) == 0 || !utf8.Valid(chars) {
+			continue
+		}
+		rs := []rune(string(chars))
+		fill := byte("0_ "[g.R.Intn(3)])
+		total := []int{1, 2, 7, 8, 9, 10, 12, 16, 17, 30}[g.R.Intn(10)]
+		var s2 []byte
+		for len(s2) < total {
+			s2 = append(s2, fill)
+		}
+		for k := g.R.Intn(3); k > 0; k-- {
+			m := rs[g.R.Intn(len(rs))]
+			o := gen.Orbit(m)
+			v := []byte(string(o[g.R.Intn(len(o))]))
+			at := g.R.Intn(len(s2) + 1)
+			s2 = append(s2[:at:at], append(v, s2[at:]...)...)
+		}
+		p.pair(fns, gen.Pair{S: s2, T: chars})
+	}
+}
+
 // singleByteCount: Count/Cut/Index… with one-byte needles (the byte kernels behind Count)
 func (p *planner) singleByteCount(fns []string, n int) {
 	g := p.g
@@ -488,28 +571,7 @@ func plan(prop string, seed int64, scale int) []op {
 	case "C11":
 		p := mk(false)
 		p.pairFamilies(concat(fnAny, []string{"makeASCIISet"}), n/2)
-		p.fam = "any-strategies"
-		for i := 0; i < n*2; i++ {
-			g := p.g
-			ls := []int{0, 1, 2, 7, 8, 9, 10, 16, 17, 30}[g.R.Intn(10)]
-			var s []byte
-			if g.R.Intn(2) == 0 {
-				s = g.Pad(ls, 0, nil)
-			} else {
-				s = g.Pad(ls, 3, nil)
-			}
-			if g.R.Intn(2) == 0 {
-				s = append(s, []string{"\u212a", "ſ", "k", "S", "世", "é", "1"}[g.R.Intn(7)]...)
-			}
-			var chars []byte
-			for j := g.R.Intn(6); j > 0; j-- {
-				chars = append(chars, []string{"k", "K", "s", "S", "\u212a", "ſ", "a", "1", "é", "世", "z", "-"}[g.R.Intn(12)]...)
-			}
-			if g.R.Intn(4) == 0 {
-				chars = append(chars, g.Str(1)...)
-			}
-			p.pair(concat(fnAny, []string{"makeASCIISet"}), gen.Pair{S: s, T: chars})
-		}
+		p.anyFamilies(concat(fnAny, []string{"makeASCIISet"}), n*2)
 		return p.ops
 	case "C12":
 		p := mk(true)
